@@ -1,4 +1,5 @@
 import Zc.Proofs.Lookup
+import Zc.Proofs.LookupRead
 /-! # C18 — service-info lookup: bounded, cache-first, never from expired data
 
 The lookup (`AsyncServiceInfo.async_request`) is the block machine `Zc.Lookup.step`
@@ -78,7 +79,10 @@ the constructor defaults or those of an SRV record of the instance, the TXT is e
 record of the instance, and every address is that of an address record whose key is the SRV host's —
 each of these records having been read (`R r t`: it was in the cache, or in the list handed to
 `async_update_records`, of a block at time `t`) while **not expired at `t`**.  It holds of the info
-object after every block of every run, in particular of what the caller sees at the return. -/
+object after every block of every run, in particular of what the caller sees at the return.
+**This is the weak form** (second review): the existential ranges over all blocks of the run, so it does not say that the
+field was assigned *in* the block that read the record.  The sentence's "when they were read" is `C18_block_fresh` /
+`C18_fresh_when_read` below, which pin the read to the assigning block; `C18_fresh` is kept because `C18_success_prov` is stated with it. -/
 theorem C18_fresh (name : String) (timeout : Int) (forced : Nat) (bs : List Block) (s' : Req) (outs : List (Block × Out))
     (hrun : run lower (Req.init lower name timeout forced) bs = some (s', outs)) :
     Prov lower (fun r t => ∃ b ∈ bs, b.now = t ∧ r ∈ b.reads) s'.info ∧
@@ -460,6 +464,65 @@ example : CacheSuffices id [exSrvLive, exSrvDead, exAddr] "i._x._tcp.local." 500
 /-- … and the (repaired) lookup answers from it at once, with the valid SRV's data, sending nothing -/
 example : (step id (Req.init id "i._x._tcp.local." 200 0) (.start 5000 [exSrvLive, exSrvDead, exAddr] [] 20)).map
     (fun p => (p.2.ret, p.2.sent.isSome, p.2.info.port, p.2.info.v4)) = some (some true, false, some 80, [[10, 0, 0, 1]]) := by decide
+
+/-! ## "had not expired when they were read": the read is pinned to the block that assigned the field -/
+
+/-- **One block** (from *any* state — a fresh object, one constructed with `server=`/`addresses=`, or one re-used for a second
+request): across the block every field group of the info object — host/port/priority/weight, TXT, each address — is either
+**unchanged**, or equals that of a record **this block read** (`b.reads`: the cache snapshot of a `start`/`update` block, or the list
+handed to `async_update_records`) that was **unexpired at this block's time** (`AssignedIn`, `Proofs/LookupRead.lean`); an address that
+stays requires the host key to have stayed.  This is the sentence's "when they were read": a record that was unexpired in the cache of
+an *earlier* block no longer justifies a field assigned later (which `C18_fresh`'s existential over all blocks of the run allowed). -/
+theorem C18_block_fresh (s : Req) (b : Block) (s' : Req) (o : Out) (hs : step lower s b = some (s', o)) :
+    AssignedIn lower b.reads b.now s.info s'.info ∧ o.info = s'.info :=
+  step_assigned lower s b s' o hs
+
+/-- **Along a run, and at its end.**  `Chain`: every block of the run satisfies `C18_block_fresh` w.r.t. the info the previous block
+reported.  Hence for a lookup on a fresh object that returns `true` (the last block's info is what the caller sees): host, port,
+priority and weight were assigned **in a block of the run** from an SRV record of the instance which that block read, unexpired at
+that block's time, and no later block changed them; and every address was put there **in a block of the run** from an address record
+which that block read, unexpired at that block's time, whose owner is the host the object names at the end. -/
+theorem C18_fresh_when_read (name : String) (timeout : Int) (forced : Nat) (bs : List Block) (s' : Req) (outs : List (Block × Out))
+    (hrun : run lower (Req.init lower name timeout forced) bs = some (s', outs)) :
+    Chain lower (Info.fresh lower name) outs ∧ s'.info = lastInfo (Info.fresh lower name) outs ∧
+    ((s'.info.v4 ≠ [] ∨ s'.info.v6 ≠ []) →
+      (∃ pre b o post r, outs = pre ++ (b, o) :: post ∧ r ∈ b.reads ∧ r.isExpired b.now = false ∧ SrvFrom lower o.info r ∧
+        SrvSame o.info s'.info ∧ s'.info.key = o.info.key) ∧
+      ∀ a ∈ s'.info.v4 ++ s'.info.v6, ∃ pre b o post r sc k, outs = pre ++ (b, o) :: post ∧ r ∈ b.reads ∧ r.isExpired b.now = false ∧
+        r.rdata = .addr a sc ∧ s'.info.serverKey = some k ∧ (lower r.name = k ∨ lower r.name = lower k) ∧ a ∈ o.info.v4 ++ o.info.v6) := by
+  obtain ⟨hc, hl⟩ := run_chain lower bs _ s' outs hrun
+  have hc' : Chain lower (Info.fresh lower name) outs := hc
+  have hl' : s'.info = lastInfo (Info.fresh lower name) outs := hl
+  refine ⟨hc', hl', ?_⟩
+  intro hne
+  have haddr : ∀ a ∈ s'.info.v4 ++ s'.info.v6, ∃ pre b o post r sc k, outs = pre ++ (b, o) :: post ∧ r ∈ b.reads ∧
+      r.isExpired b.now = false ∧ r.rdata = .addr a sc ∧ s'.info.serverKey = some k ∧ (lower r.name = k ∨ lower r.name = lower k) ∧
+      a ∈ o.info.v4 ++ o.info.v6 := by
+    intro a ha
+    rw [hl'] at ha
+    rcases chain_addr lower outs _ hc' a ha with ⟨h0, -⟩ | h1
+    · simp [Info.fresh] at h0
+    · rw [hl']; exact h1
+  refine ⟨?_, haddr⟩
+  rcases chain_srv lower outs _ hc' with ⟨hs, -⟩ | h1
+  · exfalso
+    have : ∃ a, a ∈ s'.info.v4 ++ s'.info.v6 := by
+      rcases hne with h4 | h6
+      · obtain ⟨a, ha⟩ := List.exists_mem_of_ne_nil _ h4
+        exact ⟨a, by simp [ha]⟩
+      · obtain ⟨a, ha⟩ := List.exists_mem_of_ne_nil _ h6
+        exact ⟨a, by simp [ha]⟩
+    obtain ⟨a, ha⟩ := this
+    obtain ⟨_, _, _, _, _, _, k, -, -, -, -, hk, -⟩ := haddr a ha
+    rw [hl', hs.2.1] at hk
+    simp [Info.fresh] at hk
+  · rw [hl']; exact h1
+
+/-- non-vacuity of the pinning: the SRV/A response of the earlier example — the block that assigns the fields is the `update` block at
+5100, and its record list holds the records, unexpired at 5100 -/
+example : ∃ s' o, step id (Req.init id "i._x._tcp.local." 3000 0 |>.armed (Info.fresh id "i._x._tcp.local.") 5000 |> fun s => { s with phase := .waiting 5220 false, clock := 5000 })
+    (.update 5100 [exSrvLive, { exAddr with created := 5100 }] []) = some (s', o) ∧ o.info.port = some 80 ∧ o.info.v4 = [[10, 0, 0, 1]] := by
+  refine ⟨_, _, rfl, ?_, ?_⟩ <;> decide
 
 /-! ## handed an address ⇒ success, in any record order (the "iff" for the cache reading; D22 repaired) -/
 
